@@ -58,13 +58,67 @@ var current atomic.Value // *Director
 
 type dirBox struct{ d *Director }
 
+// retired remembers the collection / store objects of instances a director
+// has let go of (reopen, end of a case).  Goroutines of such an instance may
+// still cross hooks (asynchronous file removal, or an instance that could not
+// be closed after a watchdog); they must neither be adopted by the next
+// director nor touch its state.  The ring keeps references, so an address
+// cannot be reused by a live instance while it is listed.
+var retired struct {
+	mu   sync.Mutex
+	ring [128]interface{}
+	n    int
+}
+
+func retire(objs ...interface{}) {
+	retired.mu.Lock()
+	for _, o := range objs {
+		if o != nil {
+			retired.ring[retired.n%len(retired.ring)] = o
+			retired.n++
+		}
+	}
+	retired.mu.Unlock()
+}
+
+func isRetired(obj interface{}) bool {
+	if obj == nil {
+		return false
+	}
+	retired.mu.Lock()
+	defer retired.mu.Unlock()
+	for _, o := range retired.ring {
+		if o == obj {
+			return true
+		}
+	}
+	return false
+}
+
 func init() {
 	current.Store(dirBox{})
 	moss.VerifSetHook(func(point string, obj interface{}) {
+		if isRetired(obj) {
+			return
+		}
 		if b, ok := current.Load().(dirBox); ok && b.d != nil {
 			b.d.at(point, obj)
 		}
 	})
+}
+
+// SetDelay installs the free-running delay function.
+func (d *Director) SetDelay(f func(point string)) {
+	d.mu.Lock()
+	d.Delay = f
+	d.mu.Unlock()
+}
+
+// SetOnCross installs the crossing callback.
+func (d *Director) SetOnCross(f func(point string)) {
+	d.mu.Lock()
+	d.OnCross = f
+	d.mu.Unlock()
 }
 
 // NewDirector creates a director and makes it the process-wide receiver.
@@ -87,6 +141,9 @@ func NewDirector() *Director {
 // Detach stops routing hooks to this director.
 func (d *Director) Detach() {
 	d.DisarmAll()
+	d.mu.Lock()
+	retire(d.coll, d.store)
+	d.mu.Unlock()
 	if b, ok := current.Load().(dirBox); ok && b.d == d {
 		current.Store(dirBox{})
 	}
@@ -171,6 +228,7 @@ func (d *Director) at(point string, obj interface{}) {
 // per-instance counters; called right before (re)opening.
 func (d *Director) NewInstance() {
 	d.mu.Lock()
+	retire(d.coll, d.store)
 	d.coll, d.store = nil, nil
 	d.cross = map[string]int{}
 	d.parked = map[string]string{}
